@@ -16,6 +16,7 @@ def fq(db, key):
 
 class C09(Prop):
     id = "C09"
+    noise_sample = 300
     gen_module = "FsCatalogGen"
     judge_module = "FsCatalogJudge"
     assumptions = [
